@@ -24,18 +24,21 @@ func init() {
 		ID:    "C17",
 		Level: "exploration",
 		Rule: "seeded cases = (body bytes 0..3*4096+1 biased to buffer boundaries) x (scripted underlying stream: per-call chunk sizes incl. runs of <=50 zero-length reads, data+EOF or data+error in one call, " +
-			"scripted error before/after any byte, optional Close error; or nil Body; or http.NoBody) x (Content-Length: positive with/without header, header \"0\", absent (0, no header), -1) x " +
-			"(operation sequence of 1..12 ops over HasBody, Read(n) n in {0,1,7,4096,10000}, Close), followed by a fixed tail: drain to the terminal condition, Close, one read after close, second Close. " +
+			"scripted error before/after any byte, optional Close error; or nil Body; or http.NoBody) x (Content-Length: positive with/without header, header \"0\" or another spelling of zero (\"00\", \" 0\", \"000\") with field 0, absent (0, no header), -1) x " +
+			"(method POST, or GET/HEAD/DELETE/OPTIONS/PUT/PATCH/TRACE, lower- or mixed-case, or empty; TransferEncoding nil or [chunked] when no length is declared: the expected answer depends on neither) x " +
+			"(operation sequence of 1..12 ops over HasBody, Read(n) n in {0,1,7,4096,10000}, Close, and W = drain with io.Copy into a plain io.Writer (uses the body's WriteTo if it has one)), followed by a fixed tail: drain to the terminal condition, Close, one read after close, second Close. " +
 			"Every operation is executed on the real request and on a byte-queue model written from the statement; each result is compared as it happens. " +
 			"non-trivial = no length declared (the peeking path is taken), non-empty scripted stream, and the sequence has >=1 HasBody followed by >=1 Read(n>0); " +
 			"distinct by (body length, stream script, Content-Length class, operation sequence)",
 		Assumptions: []string{
 			"underlying streams never return (0,nil) more than 50 times in a row (bufio gives up with io.ErrNoProgress after 100 consecutive empty reads; streams beyond that documented limit are not judged)",
 			"underlying streams are sticky: once the terminal condition (EOF or the scripted error) was returned it is returned again by every later read, as net/http request bodies do; after Close they fail every read",
-			"ContentLength field and Content-Length header are coherent, as net/http produces them (positive field with or without header; header \"0\" with field 0; no header with field 0 or -1)",
+			"ContentLength field and Content-Length header are coherent, as net/http produces them (positive field with or without header; header \"0\" - or \"00\", \" 0\", \"000\", which net/http also accepts and keeps verbatim - with field 0: a declared zero length; no header with field 0 or -1)",
 			"the answer of HasBody after Close is not judged (the statement is silent); reads must still fail and the stream must not be closed again",
 			"the value returned by Close is not judged; Read with an empty buffer may return (0,nil) at any time (it can return no stale data)",
 			"Close calls the caller makes on the bare stream before any HasBody (nothing of the library in between) are not attributed to the library: the object installed by HasBody must close the stream exactly once more",
+			"a request that came with a body stream and has request.Body == nil after HasBody is a violation (body-dropped): the stream is no longer intact for the caller; for requests that came with a nil Body nothing is read or closed",
+			"io.Copy from the body must deliver exactly the undelivered bytes and return nil for a stream that ends with io.EOF, the scripted error otherwise; after Close it must deliver nothing and must not end cleanly while bytes are undelivered",
 			"a Read that returns (0,nil) for a non-empty buffer is tolerated (io.Reader allows it) as long as the terminal condition arrives within the bounded drain",
 		},
 		MinNontrivial: 2000,
@@ -78,7 +81,11 @@ type Case struct {
 	Stream        Script   `json:"stream"`
 	ContentLength int64    `json:"content_length"`
 	CLHeader      *string  `json:"cl_header"` // nil: no Content-Length header
-	Ops           []string `json:"ops"`       // "H" | "C" | "R<n>"
+	Ops           []string `json:"ops"`       // "H" | "C" | "R<n>" | "W" (drain with io.Copy)
+	// Method: nil means POST (all cases recorded before the field existed); otherwise the request
+	// method verbatim (may be empty or lower-case). TransferEncoding is copied to the request.
+	Method           *string  `json:"method,omitempty"`
+	TransferEncoding []string `json:"transfer_encoding,omitempty"`
 }
 
 // ---- scripted stream ----
@@ -159,18 +166,41 @@ type info struct {
 }
 
 var scratch = make([]byte, 10000)
+var copyBuf = make([]byte, 32*1024)
+var copySink = make([]byte, 0, 16*1024)
 
 func clClass(c *Case) string {
 	switch {
 	case c.ContentLength > 0:
 		return "cl-positive"
 	case c.CLHeader != nil:
-		return "cl-header-" + strconv.Quote(*c.CLHeader)
+		return "cl-header-" + strings.ReplaceAll(strconv.Quote(*c.CLHeader), " ", `\x20`) // no blank in a signature
 	case c.ContentLength < 0:
 		return "cl-minus1"
 	default:
 		return "cl-absent"
 	}
+}
+
+// reqClass names what distinguishes the request from the plain POST of the first version of this
+// monitor: the method and the transfer encoding. The statement makes the answer depend on neither.
+// It is empty for a plain POST, so that the signatures of earlier witnesses keep their spelling.
+func reqClass(c *Case) string {
+	s := ""
+	if c.Method != nil && *c.Method != http.MethodPost {
+		switch m := *c.Method; {
+		case m == "":
+			s += "/method-empty"
+		case m != strings.ToUpper(m):
+			s += "/method-lower-case"
+		default:
+			s += "/method-" + m
+		}
+	}
+	if len(c.TransferEncoding) > 0 {
+		s += "/te-" + strings.Join(c.TransferEncoding, "+")
+	}
+	return s
 }
 
 func kindClass(c *Case) string {
@@ -198,7 +228,15 @@ func exec(c *Case) (fs []finding, inf info) {
 	var rest []byte
 	var term error = io.EOF
 	var st *stream
-	req := &http.Request{Method: http.MethodPost, Header: http.Header{}, ContentLength: c.ContentLength}
+	rqc := reqClass(c)
+	method := http.MethodPost
+	if c.Method != nil {
+		method = *c.Method
+	}
+	req := &http.Request{Method: method, Header: http.Header{}, ContentLength: c.ContentLength}
+	if len(c.TransferEncoding) > 0 {
+		req.TransferEncoding = append([]string(nil), c.TransferEncoding...)
+	}
 	if c.CLHeader != nil {
 		req.Header.Set("Content-Length", *c.CLHeader)
 	}
@@ -244,18 +282,26 @@ func exec(c *Case) (fs []finding, inf info) {
 		}
 		fmt.Fprintf(trace, " H=%v", ans)
 		sawHas = true
+		if st != nil && req.Body == nil {
+			// "leaves the body stream intact": the request had a body stream and has none now; its
+			// bytes, its terminal condition and its Close are out of the caller's reach.
+			add("body-dropped/"+clc+rqc, "HasBody = %v and left request.Body nil although the request came with a body stream (%d byte(s) undelivered, terminal %s, closed %d time(s)); method %q, ContentLength=%d header=%s; trace [%s]",
+				ans, len(rest), termName(), st.closes, method, c.ContentLength, hdr(c), trace)
+			stop = true
+			return
+		}
 		if closed {
 			cls("hasbody-after-close")
 			return
 		}
 		want := declaredPositive || (!declared && len(rest) > 0)
 		if ans != want {
-			add(fmt.Sprintf("hasbody-%v-want-%v/%s/%s", ans, want, clc, kind),
-				"HasBody = %v, expected %v: ContentLength=%d header=%s, %d byte(s) still readable from the body; trace [%s]",
-				ans, want, c.ContentLength, hdr(c), len(rest), trace)
+			add(fmt.Sprintf("hasbody-%v-want-%v/%s/%s%s", ans, want, clc, kind, rqc),
+				"HasBody = %v, expected %v: method %q, TransferEncoding %q, ContentLength=%d header=%s, %d byte(s) still readable from the body; trace [%s]",
+				ans, want, method, c.TransferEncoding, c.ContentLength, hdr(c), len(rest), trace)
 		}
 		if lastHas != nil && *lastHas != ans {
-			add("hasbody-unstable/"+clc+"/"+kind, "two consecutive HasBody calls answered %v then %v; trace [%s]", *lastHas, ans, trace)
+			add("hasbody-unstable/"+clc+"/"+kind+rqc, "two consecutive HasBody calls answered %v then %v (method %q, TransferEncoding %q); trace [%s]", *lastHas, ans, method, c.TransferEncoding, trace)
 		}
 		a := ans
 		lastHas = &a
@@ -352,6 +398,79 @@ func exec(c *Case) (fs []finding, inf info) {
 		return true
 	}
 
+	// doCopy drains the body the way most handlers do: io.Copy, which uses the body's WriteTo when it
+	// has one (the writer below has no ReadFrom, so nothing else is tried before the plain Read loop).
+	doCopy := func() {
+		if req.Body == nil {
+			cls("copy-skipped-nil-body")
+			return
+		}
+		sink := plainWriter{b: copySink[:0]}
+		var k int64
+		var err error
+		// io.CopyBuffer is io.Copy with a caller-supplied buffer for the plain Read loop (same
+		// WriteTo-first rule); the buffer has io.Copy's size
+		pv, stk := mon.Catch(func() { k, err = io.CopyBuffer(&sink, req.Body, copyBuf) })
+		if pv != nil {
+			add("panic/copy/"+kind, "io.Copy from the body panicked after [%s]: %v\n%s", trace, pv, stk)
+			fmt.Fprintf(trace, " W=panic")
+			stop = true
+			return
+		}
+		got := sink.b
+		fmt.Fprintf(trace, " W=(%d,%v)", k, err)
+		if _, ok := req.Body.(io.WriterTo); ok {
+			cls("copy-via-writeto")
+		} else {
+			cls("copy-via-read")
+		}
+		if k != int64(len(got)) {
+			add("copy-count-mismatch/"+kind, "io.Copy from the body reported %d byte(s) but wrote %d; trace [%s]", k, len(got), trace)
+			stop = true
+			return
+		}
+		if closed {
+			switch {
+			case len(got) > 0:
+				add("copy-after-close-returned-data/"+clc+"/"+kind, "io.Copy from the body after Close delivered %d byte(s) %q; trace [%s]", len(got), clip(got), trace)
+			case err == nil && (len(rest) > 0 || term != io.EOF):
+				// io.Copy returns nil only when the source reported io.EOF
+				add("copy-after-close-clean-eof/"+clc+"/"+kind,
+					"io.Copy from the body after Close ended cleanly (the body reported io.EOF) although %d body byte(s) were never delivered and the stream's terminal condition is %s; trace [%s]",
+					len(rest), termName(), trace)
+			}
+			return
+		}
+		lastHas = nil
+		if sawHas {
+			sawReadAfterHas = true
+		}
+		if string(got) != string(rest) {
+			sig := "copy-bytes-corrupt/" + clc
+			switch {
+			case len(got) > len(rest):
+				sig = "copy-fabricated-bytes/" + clc
+			case len(got) < len(rest) && string(got) == string(rest[:len(got)]):
+				sig = "copy-truncated/" + clc
+			case len(got) < len(rest) && string(got) == string(rest[len(rest)-len(got):]):
+				sig = "copy-bytes-lost/" + clc
+			}
+			add(sig, "io.Copy from the body at body offset %d delivered %d byte(s) %q, expected the %d remaining byte(s) %q (then %s), copy error %v; trace [%s]",
+				total-len(rest), len(got), clip(got), len(rest), clip(rest), termName(), err, trace)
+			stop = true
+			return
+		}
+		rest = rest[len(rest):]
+		cls("terminal-delivered/" + termName())
+		ok := err == nil // io.Copy turns the source's io.EOF into nil
+		if term != io.EOF {
+			ok = errors.Is(err, term)
+		}
+		if !ok {
+			add("copy-wrong-terminal/want-"+termName()+"/"+clc+"/"+kind, "io.Copy from the body delivered every byte and then returned %v, expected %s; trace [%s]", err, wantCopyErr(term), trace)
+		}
+	}
+
 	// The harness's own Close calls on the bare scripted stream (no object installed by HasBody in
 	// between) are counted apart: the object installed by HasBody must add exactly one more.
 	countClose := func() {
@@ -404,6 +523,8 @@ func exec(c *Case) (fs []finding, inf info) {
 			doHas()
 		case op == "C":
 			doClose()
+		case op == "W":
+			doCopy()
 		case strings.HasPrefix(op, "R"):
 			n, err := strconv.Atoi(op[1:])
 			if err != nil || n < 0 || n > len(scratch) {
@@ -460,6 +581,22 @@ func exec(c *Case) (fs []finding, inf info) {
 	return fs, inf
 }
 
+// plainWriter is an io.Writer and nothing else (no ReadFrom), so that io.Copy's choice depends on
+// the source alone.
+type plainWriter struct{ b []byte }
+
+func (w *plainWriter) Write(p []byte) (int, error) {
+	w.b = append(w.b, p...)
+	return len(p), nil
+}
+
+func wantCopyErr(term error) string {
+	if term == io.EOF {
+		return "nil (a clean end of stream)"
+	}
+	return term.Error()
+}
+
 func hdr(c *Case) string {
 	if c.CLHeader == nil {
 		return "<none>"
@@ -500,6 +637,11 @@ func clone(c *Case) *Case {
 		h := *c.CLHeader
 		d.CLHeader = &h
 	}
+	if c.Method != nil {
+		mth := *c.Method
+		d.Method = &mth
+	}
+	d.TransferEncoding = append([]string(nil), c.TransferEncoding...)
 	return &d
 }
 
@@ -522,6 +664,9 @@ func minimise(c *Case, sig string) *Case {
 			try(func(d *Case) { d.Ops = append(d.Ops[:i:i], d.Ops[i+1:]...) })
 		}
 	}
+	// request shape (a signature that names the method or the transfer encoding keeps them)
+	try(func(d *Case) { d.Method = nil })
+	try(func(d *Case) { d.TransferEncoding = nil })
 	// stream script
 	try(func(d *Case) { d.Stream.Chunks = nil })
 	try(func(d *Case) { d.Stream.Tail = 0 })
@@ -714,6 +859,11 @@ func genCase(r *rand.Rand) *Case {
 		c.ContentLength = -1
 	case k < 16:
 		z := "0"
+		if r.Intn(3) == 0 {
+			// other spellings of a declared zero length that net/http accepts (it keeps the header
+			// text and sets the field to 0)
+			z = zeroSpellings[r.Intn(len(zeroSpellings))]
+		}
 		c.CLHeader = &z
 	default:
 		c.ContentLength = int64(n)
@@ -733,12 +883,28 @@ func genCase(r *rand.Rand) *Case {
 			c.Ops = append(c.Ops, "H")
 		case k < 7:
 			c.Ops = append(c.Ops, "C")
+		case k == 7:
+			c.Ops = append(c.Ops, "W")
 		default:
 			c.Ops = append(c.Ops, "R"+strconv.Itoa(readSizes[r.Intn(len(readSizes))]))
 		}
 	}
+	// request shape: the statement makes the answer depend on neither the method nor the transfer
+	// encoding
+	if r.Intn(5) < 2 {
+		mth := methods[r.Intn(len(methods))]
+		c.Method = &mth
+	}
+	if c.ContentLength <= 0 && c.CLHeader == nil && r.Intn(4) == 0 {
+		// chunked: net/http declares no length then (field -1 on the server side, 0 on a request
+		// built by hand)
+		c.TransferEncoding = []string{"chunked"}
+	}
 	return c
 }
+
+var zeroSpellings = []string{"00", " 0", "000"}
+var methods = []string{"GET", "HEAD", "DELETE", "OPTIONS", "PUT", "PATCH", "TRACE", "post", "get", "Delete", ""}
 
 const batchSize = 1000
 
